@@ -6,7 +6,8 @@ Functions under contract:
       and for native_rounding_tag (inherits divide_op)
   L2  cnl::custom_operator<divide_op, op_value<wrapper<L,Tag>>, op_value<wrapper<R,Tag>>>::operator()    L1 replaced by contract
   L3  operator/ on cnl::rounding_integer<Rep, Tag>                                                        L2 replaced by contract
-  the non-division operators of a rounding tag are the built-in ones (contract: C++ semantics, see C12).
+  OTHER public + - * >> & < (thorough: % << ^ == >=) on rounding_integer<T, nearest/tie_pos/neg_inf>: whole operator inlined, contract = the C++
+      semantics of the built-in expression on the reps (same contract generator as C12).
 Postcondition, division-free, q = ret, a, b exact in a wide vector:
   nearest (ties away from zero): 2|a - q b| <= |b|  and  (2|a - q b| == |b|  ==>  |q b| > |a|)
   tie to +inf                  : -|b| <= 2 (a - q b) sgn(b) < |b|
@@ -129,6 +130,32 @@ def plan(tier):
                 jobs.append(Job('%s.L2.%s' % (PROP, tag), kname, P_WRAPOP, c1,
                                 replace=[(P_TAGDIV, c1), (P_NATDIV, c1)], via=s2, layer=2, **common2))
             n += 1
+    # "all other operators under a rounding tag behave exactly like the built-in ones": public operator on rounding_integer<T, Tag>
+    # for the non-native tags, whole operator inlined, against the C++ semantics of the built-in expression (as C12 does for native tags)
+    from specs.C12 import sem_contract as c12_contract, oracle as c12_oracle, OPS as C12_OPS, CMP as C12_CMP
+    from vplib.speclib import builtin_sem as _bs
+    P_ANYOP = r'^auto cnl::_impl::operator(?:[-+*%&|^]|<<|>>|==|!=|<=|>=|<|>)<cnl::_impl::wrapper<'
+    other_ops = ['add', 'subtract', 'multiply', 'shift_right', 'bitwise_and', 'less_than'] + (['modulo', 'shift_left', 'bitwise_xor', 'equal', 'greater_than_or_equal'] if thorough else [])
+    for mode in ('nearest', 'tie_pos', 'neg_inf'):
+        tg = TAGS[mode]
+        for (l, r) in [('i32', 'i32'), ('i16', 'u16')] + ([('u32', 'i32'), ('i8', 'i8')] if thorough else []):
+            if not thorough and mode != 'nearest' and (l, r) != ('i32', 'i32'):
+                continue
+            L, R = T(l), T(r)
+            A = 'cnl::rounding_integer<%s, %s>' % (cxx(l), tg)
+            B = 'cnl::rounding_integer<%s, %s>' % (cxx(r), tg)
+            for op in other_ops:
+                sym = C12_OPS[op]
+                tag = 'other_%s_%s_%s_%s' % (mode, op, l, r)
+                sname = 'vp_' + tag
+                Res = _bs(op, L, R, 'x', 'y')['res']
+                if op in C12_CMP:
+                    src.append(shim('bool', sname, [(l, 'a'), (r, 'b')], 'return cnl::_impl::from_rep<%s>(a) %s cnl::_impl::from_rep<%s>(b);' % (A, sym, B)))
+                else:
+                    src.append(shim(short_of(Res), sname, [(l, 'a'), (r, 'b')], 'return cnl::unwrap(cnl::_impl::from_rep<%s>(a) %s cnl::_impl::from_rep<%s>(b));' % (A, sym, B)))
+                absm = dict(abstract_mul=True, abstract_div=True) if op in ('multiply', 'modulo') else {}
+                jobs.append(Job('%s.L3.%s' % (PROP, tag), kname, P_ANYOP, c12_contract(op, L, R, 0), via=sname, shim=sname, shim_types=[l, r],
+                                oracle=c12_oracle(op, L, R), prop=PROP, timeout=120, layer=3, **absm))
     k = Kernel(kname, ''.join(src), [], 'rounding division')
     meta = {'instantiations': n,
             'explanation': 'division-free postconditions from the statement; helper functions of each mode are inlined real bodies',
